@@ -15,7 +15,9 @@ ASSUMPTIONS = [
 DEFAULTS = ['EXPLICIT TAGS', 'IMPLICIT TAGS', 'AUTOMATIC TAGS', '']
 KEYWORDS = ['', 'IMPLICIT', 'EXPLICIT']
 CLASSES = ['', 'APPLICATION', 'PRIVATE', 'UNIVERSAL']
-POSITIONS = ['assign', 'seq-comp', 'set-comp', 'choice-alt', 'nested-comp', 'nested2-comp', 'seqof-elem', 'setof-elem', 'comp-seqof-elem']
+POSITIONS = ['assign', 'seq-comp', 'set-comp', 'choice-alt', 'nested-comp', 'nested2-comp', 'seqof-elem', 'setof-elem', 'comp-seqof-elem',
+             # a component of the anonymous element type of a collection (the default has to reach below SEQUENCE OF and SET OF)
+             'seqof-nested-comp', 'setof-nested-comp', 'comp-setof-nested-comp']
 KINDS = ['prim', 'ref-seq', 'ref-choice', 'inline-choice', 'open']
 KIND_TEXT = {'prim': 'INTEGER', 'ref-seq': 'R', 'ref-choice': 'C', 'inline-choice': 'CHOICE { x NULL, y BOOLEAN }', 'open': 'ANY'}
 CLASS_IDENT = {'': 'context', 'APPLICATION': 'application', 'PRIVATE': 'private', 'UNIVERSAL': 'universal'}
@@ -44,6 +46,12 @@ def shape_text(default, kw, cls, pos, kind, num):
         body = f"T ::= SET OF {ty}"
     elif pos == 'comp-seqof-elem':
         body = f"T ::= SEQUENCE {{ l SEQUENCE OF {ty} }}"
+    elif pos == 'seqof-nested-comp':
+        body = f"T ::= SEQUENCE OF SEQUENCE {{ f BOOLEAN, a {ty} }}"
+    elif pos == 'setof-nested-comp':
+        body = f"T ::= SET OF SEQUENCE {{ f BOOLEAN, a {ty} }}"
+    elif pos == 'comp-setof-nested-comp':
+        body = f"T ::= SEQUENCE {{ l SET OF CHOICE {{ f BOOLEAN, a {ty} }} }}"
     return f"M DEFINITIONS {default} ::= BEGIN R ::= SEQUENCE {{ z BOOLEAN }} C ::= CHOICE {{ p NULL, q BOOLEAN }} {body} END"
 
 
@@ -53,6 +61,8 @@ def all_shapes(tier):
         if kw == 'IMPLICIT' and kind in ('ref-choice', 'inline-choice', 'open'):
             continue
         if tier == 'quick' and pos in ('nested2-comp', 'comp-seqof-elem', 'setof-elem') and cls in ('PRIVATE',):
+            continue
+        if tier == 'quick' and pos in ('seqof-nested-comp', 'setof-nested-comp', 'comp-setof-nested-comp') and (cls in ('PRIVATE', 'UNIVERSAL') or kind not in ('prim', 'ref-seq')):
             continue
         out.append((d, kw, cls, pos, kind))
     return out
@@ -180,7 +190,8 @@ def expected_explicit(default, kw, kind, pos=None):
 
 
 def container_name(pos):
-    return {'assign': None, 'seq-comp': 'T', 'set-comp': 'T', 'choice-alt': 'T', 'nested-comp': 'TN', 'nested2-comp': None, 'seqof-elem': None, 'setof-elem': None, 'comp-seqof-elem': None}[pos]
+    return {'assign': None, 'seq-comp': 'T', 'set-comp': 'T', 'choice-alt': 'T', 'nested-comp': 'TN', 'nested2-comp': None, 'seqof-elem': None, 'setof-elem': None, 'comp-seqof-elem': None,
+            'seqof-nested-comp': 'AnonymousT', 'setof-nested-comp': 'AnonymousT', 'comp-setof-nested-comp': 'AnonymousTL'}[pos]
 
 
 def find_tag_items(items, pos, kind):
@@ -215,6 +226,9 @@ def find_tag_items(items, pos, kind):
     if pos == 'comp-seqof-elem':
         t = structs.get('AnonymousTL')
         return (t.rasn_items() if t else None), None
+    if pos in ('seqof-nested-comp', 'setof-nested-comp', 'comp-setof-nested-comp'):
+        t = structs.get('AnonymousT' if pos != 'comp-setof-nested-comp' else 'AnonymousTL')
+        return (field_items(t, 'a') if t else None), t
     return None, None
 
 
